@@ -217,6 +217,8 @@ func vfC06Run(e *vfEnv, r *vfResult, idx int) { //nolint:cyclop
 	s.desc["topology"], s.desc["variant"] = t, variant
 	ca, cb := vfSideCfg{MaxBinding: 1000, TieBreaker: 11}, vfSideCfg{MaxBinding: 1000, TieBreaker: 22}
 	ca.TCPPassive, cb.TCPPassive = s.rng.IntN(3) == 0, s.rng.IntN(3) == 0 // ICE-TCP passive local candidates (simulated TCP mux)
+	s.mappedSignalling = s.rng.IntN(3) == 0
+	s.desc["ipv4_mapped_signalling"] = s.mappedSignalling
 	if variant == "filter" {
 		// each side rejects a random subset of the other's addresses (as seen on the wire)
 		mk := func(ips []string) func(netip.Addr) bool {
@@ -350,6 +352,20 @@ func vfC06Run(e *vfEnv, r *vfResult, idx int) { //nolint:cyclop
 				}
 			}
 			s.r.count("c06_pairs_after_failed", 1)
+		}
+		// candidates that arrive while the agent sits in Failed belong to the generation that Restart ends
+		for _, x := range s.sides() {
+			sn := x.snapshot()
+			if sn.Err != nil || sn.State != ConnectionStateFailed || s.rng.IntN(2) == 0 {
+				continue
+			}
+			for _, pc := range s.other(x).localCandsAll {
+				if rc, err := UnmarshalCandidate(pc); err == nil && s.rng.IntN(2) == 0 {
+					s.addRemoteStep(x, rc, "remote told while Failed "+vfCandAddr(rc))
+				}
+			}
+			s.restartStep(x) // asserts that nothing of the ended generation is left
+			s.r.count("c06_restart_from_failed", 1)
 		}
 	}
 	s.emittedCheck(0)
